@@ -1,9 +1,10 @@
 import WebPkg.Driver.OpsCbor
 import WebPkg.Driver.OpsMice
 import WebPkg.Driver.OpsSH
+import WebPkg.Driver.OpsSxg
 open WebPkg.Driver
 
-def handlers : List (String → List String → Option String) := [handleCbor, handleMice, handleSH]
+def handlers : List (String → List String → Option String) := [handleCbor, handleMice, handleSH, handleSxg]
 
 def dispatch (op : String) (args : List String) : String :=
   match handlers.findSome? (fun h => h op args) with
